@@ -75,8 +75,8 @@ def hv(v):
 
 def line_of(case):
     fl = ",".join("t" if f[0] == "t" else "d" + f[1].hex() for f in case["frames"]) or "-"
-    return "%s %d %s %s %s" % (case["method"].hex(), case["max"], ",".join(hv(v) for v in case["cts"]) or "-",
-                               ",".join(hv(v) for v in case["cls"]) or "-", fl)
+    return "%s %d %s %s %s%s" % (case["method"].hex(), case["max"], ",".join(hv(v) for v in case["cts"]) or "-",
+                                 ",".join(hv(v) for v in case["cls"]) or "-", fl, " H" if case.get("hint") else "")
 
 
 def describe(case):
@@ -356,6 +356,21 @@ def run(ctx):
                 fail("oracle", row["key"], {"corpus": row["what"], "line": row["line"], "reference_line": row["reference_line"]},
                      {"same_body_in_one_frame": ci[i + len(rows)][:300], "this_request": ci[i][:300]})
 
+    # requests the gate must turn away (other method / other content type) that ALSO announce a body above the size limit, with and
+    # without an exact size hint on the body (hyper's Incoming carries one when there is a Content-Length): the method and
+    # content-type decisions come first -- 405 / 415, never 413
+    big = []
+    for mx in (58, 256):
+        for size in (mx + 1, 3 * mx):
+            body = b'{"jsonrpc":"2.0","method":"say_hello","id":1,"p":"' + b"x" * (size - 53) + b'"}'
+            for method, cts in ((b"GET", [b"application/json"]), (b"PUT", [b"application/json"]), (b"DELETE", []), (b"OPTIONS", [b"text/plain"]),
+                                (b"POST", [b"text/plain"]), (b"POST", []), (b"POST", [b"application/jsonx"])):
+                for hint in (False, True):
+                    for cls in ([], [str(len(body)).encode()]):
+                        for frames in ([("d", body)], [("d", body[:7]), ("d", body[7:])]):
+                            big.append({"method": method, "max": mx, "cts": cts, "cls": cls, "frames": frames, "hint": hint,
+                                        "tag": "gate-oversize" + (":hinted" if hint else "")})
+    gate_cases = gate_cases + big
     ri, rm = run_both(gate_cases)
     for c, a, b in zip(gate_cases, ri, rm):
         check_common(c, a, b)
